@@ -152,6 +152,12 @@ def run(ctx):
                 bodies += short
             # runs of operands of every small length (a stale cache entry needs the right remaining length)
             bodies += [[T("Identifier", "x%d" % j) for j in range(n)] for n in range(1, 7)]
+            # floods: a body that yields ten and more diagnostics of its own (whatever the parser keeps count of while it
+            # recovers inside one body must not reach the bodies after it)
+            if pi % 3 == 0:
+                bodies.append([T("CBracket")] * (10 + rng.below(16)))
+                bodies.append([T(rng.choice(["CBracket", "CSqrBracket", "Comma", "Equals", "EndIf", "Else", "To"])) for _ in range(12 + rng.below(40))])
+                ctx.count("flood bodies", 2)
             for _ in range(6 if q else 12):
                 c = rng.below(3)
                 if c == 0:
